@@ -455,7 +455,7 @@ func c04Pairing(p *Prog, r *Report) {
 			r.OK("R04a", key, instrPos(at), "name is parameter "+pa.Name()+": obligation moved to the callers of "+FuncName(fn))
 			return
 		}
-		if why, ok := depExemptions[FuncName(fn)+"|"+kind+"|"+cls]; ok && why != "" {
+		if why, ok := exemptLookup(p, depExemptions, fn, FuncName, kind+"|"+cls); ok && why != "" {
 			r.OK("R04a", key, instrPos(at), "exempt by table: "+why)
 			return
 		}
@@ -888,17 +888,27 @@ func c04Naming(p *Prog, r *Report) {
 	// self reference
 	crf := p.Func(Mod, "Ctx.coqRecurFunc")
 	if crf != nil {
+		// by role: one call passes the name of a plain function (an identifier's spelling), one the result of
+		// coq.MethodName — wherever those calls live
 		var callers []string
+		viaIdent, viaMethod := false, false
 		for _, f := range p.FuncsIn(Mod) {
 			p.instrs(f, func(b *ssa.BasicBlock, i int, in ssa.Instruction) {
-				if c, ok := in.(*ssa.Call); ok && calleeOf(&c.Call) == crf {
+				if c, ok := in.(*ssa.Call); ok && calleeOf(&c.Call) == crf && len(c.Call.Args) >= 2 {
 					callers = append(callers, f.Name())
+					cls, _, _ := nameClass(c.Call.Args[1], 0)
+					if cls == "ident-name" {
+						viaIdent = true
+					}
+					if mc, ok := c.Call.Args[1].(*ssa.Call); ok && calleeName(mc) == coqPkg+".MethodName" {
+						viaMethod = true
+					}
 				}
 			})
 		}
 		sort.Strings(callers)
-		r.Check("R04d", "function and method callees go through coqRecurFunc", crf.Pos(), strings.Join(callers, ",") == "function,selectorMethod",
-			fmt.Sprintf("coqRecurFunc is called from %v; both the plain-function and the method call path must use it so that a self call uses the recursive binder", callers))
+		r.Check("R04d", "function and method callees go through coqRecurFunc", crf.Pos(), viaIdent && viaMethod,
+			fmt.Sprintf("coqRecurFunc is called from %v (plain-function path=%v, method path=%v); both the plain-function and the method call path must use it so that a self call uses the recursive binder", callers, viaIdent, viaMethod))
 		// it compares scope containment and returns the quoted binder inside the scope
 		hasScope := false
 		p.instrs(crf, func(b *ssa.BasicBlock, i int, in ssa.Instruction) {
